@@ -1,6 +1,7 @@
 (* C08 -- Unnamed values are numbered exactly as LLVM numbers them. *)
 From Coq Require Import List Bool ZArith.
 From LLIR Require Import Model.Numbering Proofs.NumberingProofs.
+From LLIR Require Pipeline.MicroIR Pipeline.MicroIRProofs Pipeline.MicroIRNumbering.
 Import ListNotations.
 Local Open Scope Z_scope.
 
@@ -48,3 +49,21 @@ Example C08_wrong_zero_accepted :
              {| it_named := false; it_id := 0; it_value := true |} ] in
   exists l', assign_ids l = Ok l'.
 Proof. exact wrong_zero_accepted. Qed.
+
+(* the parser side, on the function level of the uIR pipeline (arbitrary ASTs): the numeric identifiers of the
+   definitions of a translated function are 0, 1, 2, ... in walk order -- a written number that is not the
+   next one is an error (def_ident) -- and a use %N the translation accepted is bound to the definition
+   carrying N, which is the (N+1)-th of the numbered definitions: the value LLVM binds *)
+Theorem C08_translated_numbering : forall gidx a f, MicroIR.translate_func gidx a = MicroIR.Ok f ->
+  exists n, MicroIRNumbering.nums (MicroIR.ldefs f) = MicroIRNumbering.zseq 0 n.
+Proof. exact MicroIRNumbering.translated_numbering. Qed.
+Theorem C08_use_binds_nth_unnamed : forall gidx a f t N o,
+  MicroIR.translate_func gidx a = MicroIR.Ok f ->
+  MicroIR.res_op gidx (MicroIR.ldefs f) (MicroIR.ALocal t (MicroIR.Id N)) = MicroIR.Ok o ->
+  exists k, o = MicroIR.OLocal t k /\ In (k, MicroIR.Id N) (MicroIR.ldefs f) /\ (0 <= N) /\
+            nth_error (MicroIRNumbering.nums (MicroIR.ldefs f)) (Z.to_nat N) = Some N.
+Proof. exact MicroIRNumbering.use_binds_nth_unnamed. Qed.
+(* non-vacuity: the example function of the pipeline (a named and an unnamed parameter, an unnamed block, an
+   unnamed and a named instruction; it is the translation of its own embedding, MicroIRProofs.ex_roundtrip) *)
+Example C08_numbering_example : MicroIRNumbering.nums (MicroIR.ldefs MicroIRProofs.ex_func) = [0; 1; 2].
+Proof. reflexivity. Qed.
